@@ -201,12 +201,16 @@ func (service *TranslatorService) DecryptSearchable(ctx context.Context, data, h
 		dataToDecrypt = append(hash, data...)
 	}
 	logger.Debugln("Decrypt AcraStruct")
-	hashPart, containerData := hmac.ExtractHashAndData(dataToDecrypt)
-	if hashPart == nil {
-		return nil, ErrCantDecrypt
-	}
 	accessContext := base.NewAccessContext(base.WithClientID(clientID))
 	dataCtx := base.SetAccessContextToContext(ctx, accessContext)
+	hashPart, containerData := hmac.ExtractHashAndData(dataToDecrypt)
+	if hashPart == nil {
+		// not a searchable value; it still may be a poison record (same check as in DecryptSymSearchable)
+		if _, _, poisonErr := service.poisonDetector.OnColumn(dataCtx, dataToDecrypt); poisonErr != nil {
+			logger.WithField(logging.FieldKeyEventCode, logging.EventCodeErrorDecryptorCantCheckPoisonRecord).WithError(poisonErr).Errorln("Can't check for poison record with AcraStruct, possible missing Poison record decryption key")
+		}
+		return nil, ErrCantDecrypt
+	}
 	dataContext := &base.DataProcessorContext{Keystore: service.data.Keystorage, Context: dataCtx}
 	handler, err := crypto.GetHandlerByEnvelopeID(crypto.AcraStructEnvelopeID)
 	if err != nil {
